@@ -53,6 +53,8 @@ type Contract struct {
 	Pure        bool
 	Assumes     []Clause // assumed at entry but NOT required from callers (listed as assumptions)
 	Received    []Clause // assumed of every value received from a channel ($v)
+	Restricted  string   // restricted <reason>: the pre-conditions cut off part of the function; return sites proved unreachable are accepted as long as one return is reachable
+	Dead        []string // dead after <callee>: return sites behind a call of this callee must be unreachable under the pre-conditions
 	Lemmas      []LemmaUse
 	Inline      bool
 	Uses        []string
@@ -172,7 +174,7 @@ func LoadContracts(cs *ContractSet, pkgPath, file string) error {
 		line int
 	}
 	var logical []ll
-	kw := regexp.MustCompile(`^(func|property|safety|requires|ensures|mustfail|assume|modifies|loop|trusted|assert|pred|implementers|axiom|lemma|fresh|pure|declare|inline|nopanic|uses|global|assumeframe|nonlinear|premise|fold|mapfold|ghost|received)\b`)
+	kw := regexp.MustCompile(`^(func|property|safety|requires|ensures|mustfail|assume|modifies|loop|trusted|assert|pred|implementers|axiom|lemma|fresh|pure|declare|inline|nopanic|uses|global|assumeframe|nonlinear|premise|fold|mapfold|ghost|received|dead|restricted)\b`)
 	for i, l := range lines {
 		t := strings.TrimSpace(l)
 		if !strings.HasPrefix(t, "//@") {
@@ -349,6 +351,18 @@ func LoadContracts(cs *ContractSet, pkgPath, file string) error {
 				cur.Uses = append(cur.Uses, strings.Fields(rest)...)
 			case "nopanic":
 				cur.NoPanic = rest != "off"
+			case "restricted":
+				cur.Restricted = rest
+				if cur.Restricted == "" {
+					cur.Restricted = "restricted by its pre-conditions"
+				}
+			case "dead":
+				// dead after <callee>
+				f := strings.Fields(rest)
+				if len(f) != 2 || f[0] != "after" {
+					return fail(fmt.Errorf("bad dead clause"))
+				}
+				cur.Dead = append(cur.Dead, f[1])
 			case "modifies":
 				ml, err := parseModList(rest)
 				if err != nil {
